@@ -519,6 +519,10 @@ func extItoa(fr *frame, a []value) value {
 }
 
 func extFormatInt(fr *frame, a []value) value {
+	if sv, ok := a[0].(*Sym); ok && !isSym(a[1]) && asInt64(a[1]) == 10 && kindSigned(sv.K) {
+		// base 10: the exact rendering when the interval is small (math mode)
+		return extItoa(fr, []value{fr.i.ctx.symConv(fr, sv, types.Int)})
+	}
 	if isSym(a[0]) || isSym(a[1]) {
 		return fr.opaqueString("fmtint", a[0])
 	}
